@@ -75,6 +75,10 @@ var pqsChan = make(chan PQSChanMeta, PQS_CHAN_SIZE)
 func initSmr() {
 	localSegmetaFname = GetLocalSegmetaFName()
 
+	// start a go routine to listen on the channel; also on the first bootup, when
+	// the segmeta file does not exist yet
+	go listenBackFillAndEmptyPQSRequests()
+
 	fd, err := os.OpenFile(localSegmetaFname, os.O_RDONLY, 0666)
 	if err != nil {
 		if errors.Is(err, os.ErrNotExist) {
@@ -90,9 +94,6 @@ func initSmr() {
 		return
 	}
 	fd.Close()
-
-	// start a go routine to listen on the channel
-	go listenBackFillAndEmptyPQSRequests()
 }
 
 func GetSegFullMetaFnameFromSegkey(segkey string) string {
